@@ -693,3 +693,33 @@ def rule_assert_vs_annotation(prog: Program, modules: Optional[Set[str]] = None)
                                 f"`{short(st, 60)}` rejects {excluded}, which the annotation of `{pn}` ({sorted(anns[pn])}) admits: callers passing it fail with a bare AssertionError (and pass unchecked under python -O)" if excluded
                                 else f"`{short(st, 50)}` agrees with the annotation of `{pn}`", fi.where(st)))
     return out
+
+
+# ---------------------------------------------------------------------------------------------
+# R-PRECISION: coordinates generated in single precision
+# ---------------------------------------------------------------------------------------------
+PRECISION_MODULES = {"roi", "geobox", "overlap", "gcp"}
+
+
+def rule_precision(prog: Program, modules: Optional[Set[str]] = None) -> List[Instance]:
+    """float32 has a 24-bit mantissa: world coordinates of UTM / web-mercator size are rounded to 0.5-2 m,
+    pixel coordinates above 2**24 to whole pixels. The planning path (roi, geobox, overlap, gcp) pushes
+    such arrays through pix2wld / transformers, which keep the dtype, so sample points generated with
+    dtype=float32 move the computed regions by several pixels for fine grids."""
+    out: List[Instance] = []
+    n_seen = 0
+    for fi in prog.all_functions(modules):
+        if fi.mod.name not in PRECISION_MODULES:
+            continue
+        for n in walk_own(fi.node):
+            if not (isinstance(n, ast.Call) and call_name(n) in ("linspace", "arange", "asarray", "array", "full", "zeros", "ones", "empty", "astype", "meshgrid")):
+                continue
+            dt = [k.value for k in n.keywords if k.arg == "dtype"] + ([n.args[0]] if call_name(n) == "astype" and n.args else [])
+            for d in dt:
+                txt = (d.value if isinstance(d, ast.Constant) and isinstance(d.value, str) else short(d)).split(".")[-1]
+                if txt in ("float32", "float16", "single", "half", "f4", "f2"):
+                    n_seen += 1
+                    out.append(Instance("R-PRECISION", f"{fi.qual}#single:{short(n, 40)}", BAD,
+                                        f"`{short(n, 60)}` generates coordinates in {txt}: 24-bit mantissa, world coordinates of UTM size are rounded to 0.5-2 m and the regions derived from them shift by whole pixels on fine grids", fi.where(n)))
+    out.append(Instance("R-PRECISION", "single-scan", OK, f"{n_seen} single-precision coordinate arrays on the planning path (roi, geobox, overlap, gcp)", "", nontrivial=False))
+    return out
